@@ -31,7 +31,7 @@ ASSUMPTIONS = [
 ]
 COMPONENTS = {"real": ["pyxel.util.set_random_seed", "pyxel stochastic models", "exposure / observation paths", "dask get_async", "numpy legacy RNG"], "stub": ["thread pool", "numpy.random module functions wrapped as yield points", "pulse_processing.convert_to_phase (minutes-long physics replaced by a constant frame)"]}
 BUDGET = {"quick": {"n": 320, "wall": 110, "determinism": 4}, "thorough": {"n": 8000, "wall": 1600, "determinism": 12}}
-REQUIRED_REACH = ["kind:calibration", "prior_with_cached_gaussian", "kind:noseed-model", "kind:model", "kind:pipeline", "kind:own-seeds", "kind:failing", "path:exposure", "path:obs-seq", "path:obs-par", "rng_overlap_runs", "state_checked_after_error"]
+REQUIRED_REACH = ["kind:calibration", "prior_with_cached_gaussian", "kind:noseed-model", "kind:model", "kind:pipeline", "kind:own-seeds", "kind:failing", "path:exposure", "path:obs-seq", "path:obs-par", "seed_lock_contended", "state_checked_after_error"]
 
 GROUPS = ["scene_generation", "photon_collection", "phasing", "charge_generation", "charge_collection", "charge_transfer", "charge_measurement", "signal_transfer", "readout_electronics", "data_processing"]
 
@@ -314,7 +314,7 @@ def _run_world(scn, forced=None):
         exc = e
     info = {}
     if sim is not None:
-        info = {"digest": sim.digest(), "decisions": list(sim.decisions), "now": sim.now, "contested": sim.contested, "preemptions": sim.preemptions, "overlap": rs.overlap}
+        info = {"digest": sim.digest(), "decisions": list(sim.decisions), "now": sim.now, "contested": sim.contested, "preemptions": sim.preemptions, "overlap": rs.overlap, "lockwait": sim.stats.get("seed_lock_wait", 0)}
     return obs.tree_digest(tree), exc, info
 
 
@@ -380,6 +380,8 @@ def execute(scn, forced=None):
         for n in names:
             stats["model:" + n] = 1
     stats.update(engine_stats)
+    if any(i.get("lockwait") or (i.get("stats") or {}).get("seed_lock_wait") for i in infos):
+        stats["seed_lock_contended"] = 1
     e0, e1 = excs
     if (e0 is None) != (e1 is None) or (e0 is not None and type(e0) is not type(e1)):
         viol.append({"clause": "C04.repro", "signature": f"C04.repro-outcome@{feat}", "detail": {"first": repr(e0)[:200], "second": repr(e1)[:200]}})
